@@ -208,6 +208,7 @@ class Program:
         self.modules = {}
         self._load()
         self._ir_registry()
+        self._splice_eager_generators()
 
     def _load(self):
         seen = set()
@@ -233,6 +234,30 @@ class Program:
         for rel, src in self.overlay.items():
             if rel not in seen:
                 self.modules[rel] = Module(rel, src)
+
+    def _splice_eager_generators(self):
+        """`self._xs = list(self._surviving(excluded))`: a private generator helper consumed on the spot is spliced into its caller
+        once, here, so that every rule sees the container being rebuilt in place (see inline.eager_generators_inlined)"""
+        from .inline import eager_generators_inlined
+        for m in self.modules.values():
+            funcs = list(m.functions.values()) + [f for c in m.classes.values() for f in c.all_funcs()]
+            for f in funcs:
+                r = eager_generators_inlined(self, f)
+                if r is None:
+                    continue
+                node, helpers = r
+                old = f.node
+                parent = getattr(old, "_parent", None)
+                for fld in ("body", "orelse", "finalbody"):
+                    lst = getattr(parent, fld, None)
+                    if isinstance(lst, list) and old in lst:
+                        lst[lst.index(old)] = node
+                for par in ast.walk(node):
+                    for child in ast.iter_child_nodes(par):
+                        child._parent = par
+                node._parent = parent
+                f.node = node
+                f.inlined_helpers = helpers
 
     # -- lookup helpers -----------------------------------------------------
     def module(self, relpath):
